@@ -502,7 +502,10 @@ fn c15_run(cx: &mut Ctx, c: u32, l: u32, h: &[Op], via_esc: bool, t: &[Op]) {
         if xs.saved.len() >= depth {
             xs.saved = xs.saved[depth..].to_vec();
         }
-        xs.diff(&ys, true)
+        // the remembered DECCOLM width is not part of the statement's state list: a stale value
+        // is a violation only where it becomes visible (a later `CSI ?3l`), which the
+        // continuation exercises
+        xs.diff(&ys, true).into_iter().filter(|d| d != "saved_columns").collect()
     };
     if before.saved != after.saved[..] {
         cx.violation(Viol { prop: "C15".into(), clause: "saved-stack".into(), op: "reset".into(), bucket: "-".into(), detail: "RIS changed the saved-cursor stack".into(), case: mk() });
@@ -607,6 +610,12 @@ impl Check for C15Check {
             let tn = rng.usize(if big { 6 } else { 25 });
             let t = no_restore(mixed_history(&mut rng, c, l, tn, true));
             let via_esc = rng.bool();
+            let mut t = t;
+            if rng.below(3) == 0 {
+                // leave / enter 132-column mode right after the reset: exposes a stale remembered width
+                let at = rng.usize(t.len().min(3) + 1);
+                t.insert(at, Op::Feed(if rng.below(3) == 0 { "\x1b[?3h".into() } else { "\x1b[?3l".into() }));
+            }
             c15_run(cx, c, l, &h, via_esc, &t);
         }
     }
